@@ -7,7 +7,11 @@
     * terms/clause.rs `compile_clause`: `K(x̄) ⇒ ⟦body⟧_cont` (binders `x̄` over `cont`, where `cont`
       is the consumer of the `case`, or the `μ~v.share_…(fv)` that replaces it);
   everywhere else the consumer under a fresh/own binder is a fresh covariable, the label itself, or
-  the recursion descends into a subterm with a NEW consumer (which is then checked there).
+  the recursion descends into a subterm with a NEW consumer (which is then checked there).  The
+  checks are made on the consumer ACTUALLY placed (after `share`), with the binders ACTUALLY emitted
+  (the typed clause context).
+  Since the repair ce30c7b both places are behind the guard `binders_occur_free`, and the predicate
+  is `true` for every input (`Scc.Fun2Core.HygieneProofs`, `C02_no_capture`).
   Executable, core imports only, structurally recursive (same two-closure layout as `compileBoth`;
   intermediate states and statements are those of the real model functions).
 -/
@@ -30,6 +34,19 @@ abbrev HygComp : Type := Core.Ty → CompileState → Bool
 def hygDefault (h : HygCwc) : HygComp := fun ty st =>
   let nc := freshCovar st
   h (.var .cns ⟨nc.1, 0⟩ ty) nc.2
+
+/-- mirrors `guardedLvl`: on the guarded path the consumer stays outside (`⟨μa.⟦t⟧_a | cont⟩`) -/
+def hygGuardedLvl (binders : List String) (ty : Option Fun.Ty) (core : HygCwc) : Nat → HygCwc
+  | 0 => fun _ _ => true
+  | n + 1 => fun cont st =>
+    if bindersOccurFree binders cont then
+      match ty with
+      | none => true
+      | some t => hygDefault (hygGuardedLvl binders ty core n) (compileTy t) st
+    else core cont st
+
+def hygGuarded (binders : List String) (ty : Option Fun.Ty) (core : HygCwc) : HygCwc :=
+  hygGuardedLvl binders ty core (binders.length + 2)
 
 mutual
   /-- hygiene of `compile_with_cont` / `compile` of a term, from a given state -/
@@ -78,9 +95,9 @@ mutual
           | .error _ => true
           | .ok (_, st1) => (hygBoth n).1 cont st1)
       (h, hygDefault h)
-    -- terms/let.rs: `cont` goes under the binder `x`
-    | .letIn x varTy bound body _ =>
-      let h : HygCwc := fun cont st =>
+    -- terms/let.rs: `cont` goes under the binder `x` (after the guard)
+    | .letIn x varTy bound body lty =>
+      let core : HygCwc := fun cont st =>
         noCapture [x] cont && (hygBoth body).1 cont st &&
         (match compileWithCont body cont st with
           | .error _ => true
@@ -88,6 +105,7 @@ mutual
             let ty := compileTy varTy
             if isCodata ty st1.codataTypes then (hygBoth bound).2 ty st1
             else (hygBoth bound).1 (.mu .cns ⟨x, 0⟩ ty inStmt) st1)
+      let h : HygCwc := hygGuarded [x] lty core
       (h, hygDefault h)
     | .call _ args _ =>
       let h : HygCwc := fun _ st => hygSubst args st
@@ -105,8 +123,8 @@ mutual
               (hygBoth scrutinee).1
                 (.xtor .cns ⟨id, 0⟩ (argsSnoc args' .cns cont) (compileTy t)) st1)
       (h, hygDefault h)
-    | .case scrutinee _ clauses _ =>
-      let h : HygCwc := fun cont st =>
+    | .case scrutinee _ clauses cty =>
+      let core : HygCwc := fun cont st =>
         let r := if clausesLen clauses ≤ 1 || isLeaf cont then (cont, st) else share cont st
         hygClauses clauses r.1 r.2 &&
         (match compileClauses clauses r.1 r.2 with
@@ -115,11 +133,12 @@ mutual
             match getType scrutinee with
             | none => true
             | some t => (hygBoth scrutinee).1 (.xcase .cns (compileTy t) cs) st1)
+      let h : HygCwc := hygGuarded (clausesNames clauses) cty core
       (h, hygDefault h)
     | .new clauses _ => (fun _ st => hygCoclauses clauses st, fun _ st => hygCoclauses clauses st)
-    | .goto target t ty =>
+    | .goto target t _ =>
       let h : HygCwc := fun _ st =>
-        match ty with
+        match getType t with
         | none => true
         | some gty => (hygBoth t).1 (.var .cns ⟨target, 0⟩ (compileTy gty)) st
       (h, hygDefault h)
